@@ -342,14 +342,38 @@ pub fn current_parents(sim: &Sim) -> std::collections::BTreeMap<String, String> 
     m
 }
 
-/// F17's trigger: despawning `p` while a living entity that had `p` as relation target at the last
-/// tick has been detached or re-attached since (the client still knows it as a child of `p`).
-pub fn f17_trigger(sim: &Sim, parent_at_tick: &std::collections::BTreeMap<String, String>, p: &str) -> bool {
+/// F17's trigger: despawning `p` (and with it everything below it) while some living entity outside that
+/// subtree has had an entity of the subtree as relation target since the last fully acknowledged state -
+/// a client may still know it as a child (the re-attachment travels as a mutation and can be late or lost).
+pub fn f17_trigger(
+    sim: &Sim,
+    ever_parent: &std::collections::BTreeMap<String, std::collections::BTreeSet<String>>,
+    p: &str,
+) -> bool {
     let now = current_parents(sim);
     let w = sim.project_server();
-    parent_at_tick.iter().any(|(c, old)| {
-        old == p && now.get(c).map(String::as_str) != Some(p) && w["world"][c]["alive"] == json!(true)
+    let below = |x: &str| {
+        let mut cur = Some(x.to_string());
+        while let Some(y) = cur {
+            if y == p {
+                return true;
+            }
+            cur = now.get(&y).cloned();
+        }
+        false
+    };
+    ever_parent.iter().any(|(c, olds)| {
+        w["world"][c]["alive"] == json!(true) && !below(c) && olds.iter().any(|o| below(o))
     })
+}
+
+fn note_parents(sim: &Sim, ever: &mut std::collections::BTreeMap<String, std::collections::BTreeSet<String>>, reset: bool) {
+    if reset {
+        ever.clear();
+    }
+    for (c, p) in current_parents(sim) {
+        ever.entry(c).or_default().insert(p);
+    }
 }
 
 /// One random run; returns the number of steps recorded.
@@ -373,7 +397,7 @@ pub fn random_run<W: Write>(tr: &mut Trace<W>, cfg: Cfg, prof: &Profile, seed: u
         }
     }
     let mut next_id: u32 = 0;
-    let mut parent_at_tick: std::collections::BTreeMap<String, String> = Default::default();
+    let mut ever_parent: std::collections::BTreeMap<String, std::collections::BTreeSet<String>> = Default::default();
     for _ in 0..prof.steps {
         if prof.events && rng.chance(1, 3) {
             // event traffic
@@ -529,7 +553,9 @@ pub fn random_run<W: Write>(tr: &mut Trace<W>, cfg: Cfg, prof: &Profile, seed: u
         if rng.chance(1, 14) {
             // acknowledged state in the middle of the run, then the history goes on
             tr.sync(&mut sim);
-            parent_at_tick = current_parents(&sim);
+            if prof.rel {
+                note_parents(&sim, &mut ever_parent, true);
+            }
             continue;
         }
         let e = rng.pick(&ents).clone();
@@ -551,7 +577,7 @@ pub fn random_run<W: Write>(tr: &mut Trace<W>, cfg: Cfg, prof: &Profile, seed: u
             8..=11 => {
                 // clean relation profile: avoid the trigger of known finding F17 (an entity that was the
                 // relation target of a still living entity at the last tick, but is not any more)
-                if prof.rel && prof.clean && f17_trigger(&sim, &parent_at_tick, &e) {
+                if prof.rel && prof.clean && f17_trigger(&sim, &ever_parent, &e) {
                     continue;
                 }
                 ("Despawn", json!({"e": e}))
@@ -638,8 +664,9 @@ pub fn random_run<W: Write>(tr: &mut Trace<W>, cfg: Cfg, prof: &Profile, seed: u
         };
         let ticked = ev == "SrvFrame" && args["tick"] == json!(true);
         tr.step(&mut sim, ev, args);
-        if ticked {
-            parent_at_tick = current_parents(&sim);
+        let _ = ticked;
+        if prof.rel && matches!(ev, "Relate" | "Spawn") {
+            note_parents(&sim, &mut ever_parent, false);
         }
         if sim.server_panicked || sim.clients.iter().any(|c| c.panicked) {
             break;
